@@ -195,5 +195,6 @@ theorem inv_step {s : State} (h : Inv s) (op : Op) : Inv (step s op).1 := by
     simp only [step]
     exact ⟨h.heldNodup, h.oneHolder, h.heldIff, h.gidLt, h.gidNodup, h.tidNodup, h.noLostWake⟩
   | ctx g => simp only [step]; exact h
+  | close => simp only [step]; exact h
 
 end ClairModel.Locks
